@@ -229,54 +229,11 @@ def r3(ctx):
 
 
 def r4(ctx):
-    hir = ctx.anchor_hir(CHECK_FILE)
-    # criteria[idx] is filled for every ordering field
-    fills = [x for x in walk_exprs(hir) if x["k"] == "Assign" and x["l"]["k"] == "Index" and "criteria" in render(x["l"]["e"])]
-    ok = False
-    if len(fills) == 1:
-        # the fill sits in the enumerate() iteration over the ordering fields, indexed by that iteration's counter, and the
-        # value is the text of that iteration's expression (cached or evaluated)
-        its = [it for it in find_iterations(hir) if "ordering_fields" in render(it["iter"]) and "enumerate" in render(it["iter"]) and
-               any(y is fills[0] for y in walk_exprs(it["body"]))]
-        if len(its) == 1 and len(pat_binders(its[0]["pat"])) == 2:
-            i_id, f_id = pat_binders(its[0]["pat"])
-            ms = [c["m"] for c in walk_exprs(its[0]["iter"]) if c["k"] == "MCall"]
-            blocs = Locals(its[0]["body"])
-            val = render(blocs.chase(peel(fills[0]["r"], methods=False)))
-            uses_field = any(x["k"] == "Path" and x.get("res") == f_id for x in walk_exprs(its[0]["body"]))
-            ok = peel(fills[0]["l"]["i"]).get("res") == i_id and not (set(ms) & {"filter", "skip", "take", "rev", "step_by"}) and uses_field and \
-                any(c["k"] == "MCall" and c["m"] == "get_column_expr_value" for c in walk_exprs(its[0]["body"]))
-    ctx.obligation(ok)
-    if not ok:
-        ctx.violation("check_file/criteria", ctx.where(CHECK_FILE), "check_file must compute one criteria value per ordering field")
-    # the row goes to the buffer when buffered and to stdout only otherwise
-    ins = [c for c in walk_exprs(hir) if c["k"] == "MCall" and c["m"] == "insert" and "output_buffer" in render(c["recv"])]
-    outs = [x for x in walk_exprs(hir) if x["k"] == "Call" and "stdout" in str(x.get("callee", ""))]
-    ok = len(ins) == 1
-    if ok:
-        g = [t for t in guards_of(hir, ins[0]) if t[0] == "if"]
-        ok = any("is_buffered" in render(t[1]) and t[2] for t in g)
-        for o in outs:
-            go = [t for t in guards_of(hir, o) if t[0] == "if"]
-            ok = ok and any("is_buffered" in render(t[1]) and not t[2] for t in go)
-    ctx.obligation(ok)
-    if not ok:
-        ctx.violation("check_file/buffering", ctx.where(CHECK_FILE), "ordered rows must be inserted into the output buffer and never written to stdout directly")
-    # Criteria::new(ordering_fields, criteria, ordering_asc)
-    cn = calls_to(hir, "util::Criteria::new")
-    ok = len(cn) == 1 and "ordering_fields" in render(cn[0]["args"][0]) and render(cn[0]["args"][1]) == "criteria" and "ordering_asc" in render(cn[0]["args"][2])
-    ctx.obligation(ok)
-    if not ok:
-        ctx.violation("check_file/criteria-new", ctx.where(CHECK_FILE), "the buffer key must be Criteria::new(ordering_fields, criteria, ordering_asc)")
-    # the buffered drain prints in key order (BTreeMap::values, no reversal)
-    vh = ctx.anchor_hir("util::top_n::TopN::values")
-    r = render(vh)
-    ok = "echelons.values()" in r and "rev" not in r
-    ctx.obligation(ok)
-    if not ok:
-        ctx.violation("topn/values-order", ctx.where("util::top_n::TopN::values"), "TopN::values must yield rows in ascending key order")
-    ctx.covered("buffered ordering path (criteria fill, buffer insert, key construction, drain order)", 4,
-                distinct_keys=["criteria", "buffering", "key", "drain"])
+    """ordered rows are buffered under Criteria::new(ordering fields, one value per key in order, directions) and never
+    printed directly: check_file evaluated on the scenario table (rules/cfile.py); the drain order of the buffer is decided
+    with TopN (C06-R1, shared)"""
+    import cfile
+    cfile.pipeline(ctx)
 
 
 RULES = [
